@@ -771,9 +771,12 @@ func c17DoneOnlyOnMiss(c *Ctx, r *Report, rule string) {
 // stageKeepsNoAtomicState: c05StagePurity accepts sync/atomic stores because
 // they are race-free. For "a helper is a function of its arguments" they are
 // state all the same: a stage closure must not Store/Swap/Add/CompareAndSwap
-// a captured or package-level atomic, except the reviewed time-format cache
-// (its value is a function of the constant argument alone, see C10-a).
-func stageKeepsNoAtomicState(c *Ctx, r *Report, rule string, fileFilter func(pos token.Pos) bool) {
+// a captured or package-level atomic. The documented layout cache of
+// {time ..} ("cache" mode) is exempt where the property is about the helper's
+// documented behaviour (C11, C18) and is NOT exempt for C10: the optimiser's
+// probe evaluates the stage with a dummy context at compile time, and what the
+// stage remembers from that evaluation survives into the run.
+func stageKeepsNoAtomicState(c *Ctx, r *Report, rule string, fileFilter func(pos token.Pos) bool, exemptFormatCache bool) {
 	n := 0
 	for _, fi := range c.AllFuncDecls("rare/pkg/expressions") {
 		info := fi.Pkg.TypesInfo
@@ -827,14 +830,21 @@ func stageKeepsNoAtomicState(c *Ctx, r *Report, rule string, fileFilter func(pos
 				if within(fl, v.Pos()) {
 					return true // the stage's own local
 				}
-				if v.Name() == "atomicFormat" {
-					return true // reviewed: detected layout of a constant/first date argument (C10-a)
+				if exemptFormatCache && v.Name() == "atomicFormat" && strings.HasSuffix(fi.Name, "smartDateParseWrapper") {
+					// one named symbol: the documented "cache" mode of {time ..} remembers the layout detected on
+					// the first parsable value. That is the helper's documented behaviour, not a deviation from
+					// the calendar (C18) or from the helper's documentation (C11); for C10 it is a finding.
+					return true
 				}
 				bad, badPos = v.Name(), ce.Pos()
 				return true
 			})
-			r.Check(bad == "", rule, fi.Name, "stage literal", c.Pos(badPos), "effect: updates no captured or package-level atomic",
-				"a stage closure updates the captured atomic "+bad+": the helper remembers something from earlier lines, so its answer for a line depends on which lines the same compiled expression saw before (and on which worker saw them)")
+			construct := "stage literal"
+			if bad != "" {
+				construct = "stage updates captured atomic " + bad
+			}
+			r.Check(bad == "", rule, fi.Name, construct, c.Pos(badPos), "effect: updates no captured or package-level atomic",
+				"a stage closure updates the captured atomic "+bad+": the helper remembers something from earlier evaluations, so its answer for a line depends on what the same compiled stage was evaluated on before - earlier lines, another worker's lines, and the optimiser's compile-time probe, whose dummy context answers every lookup with the empty string")
 		}
 	}
 	_ = n
